@@ -172,7 +172,8 @@ Definition resp_close (m o : response) : bool :=
   && body_eqb (r_body m) (r_body o)
   && fwd_eqb (r_fwd m) (r_fwd o)
   && Bool.eqb (r_cors m) (r_cors o)
-  && calls_eqb (r_calls m) (r_calls o).
+  && calls_eqb (r_calls m) (r_calls o)
+  && list_N_eqb (r_flags m) (r_flags o).
 
 (* ------------------------------------------------------------------ replay on the model *)
 
